@@ -135,15 +135,19 @@ def gen_hexforms(tier):
     return st.fixed_dictionaries({
         "digits": nd.flatmap(lambda n: st.text(alphabet="0123456789abcdefABCDEF", min_size=n, max_size=n)),
         "ws": st.lists(st.tuples(st.integers(0, 140), st.sampled_from(WS)), min_size=0, max_size=6),
+        # a radix prefix in front of the digits, the digits optionally starting with zero bytes
+        "prefix": st.sampled_from(["", "", "", "", "0x", "0X", "0x", "x"]), "zeros": st.sampled_from([0, 0, 0, 2, 4, 8]),
     })
 
 
 def hexform_text(case):
     t = case["digits"]
+    if case.get("zeros"):
+        t = "0" * case["zeros"] + t[case["zeros"]:] if len(t) >= case["zeros"] else t
     for pos, ch in case["ws"]:
         pos %= len(t) + 1
         t = t[:pos] + ch + t[pos:]
-    return t
+    return case.get("prefix", "") + t
 
 
 def check_hexforms(case, ctx):
@@ -153,6 +157,12 @@ def check_hexforms(case, ctx):
         b = bytes.fromhex(text)
     except ValueError:
         b = None
+    if case.get("prefix") in ("0x", "0X"):
+        # hex digits behind a radix prefix: refusing is fine; accepting means encoding exactly the bytes behind the prefix
+        try:
+            b = bytes.fromhex(text[2:])
+        except ValueError:
+            b = None
     from btc_hd_wallet.paper_wallet import PaperWallet
     entries = [("mnemonic_from_entropy", lambda: bip39.mnemonic_from_entropy(text)),
                ("BaseWallet.from_entropy_hex", lambda: BaseWallet.from_entropy_hex(text).mnemonic),
@@ -172,7 +182,7 @@ def check_hexforms(case, ctx):
 
 
 def nt_hexforms(case):
-    return bool(case["ws"]) or len(case["digits"]) not in (32, 40, 48, 56, 64)
+    return bool(case["ws"]) or len(case["digits"]) not in (32, 40, 48, 56, 64) or bool(case.get("prefix"))
 
 
 # ------------------------------------------------------------------------------------ generator path
